@@ -88,6 +88,8 @@ def check(repo: Repo) -> Result:
     bad = {f.key.split("/", 1)[1]: f for f in tmp.findings}
     for rid in ("C20-R3", "C20-R4"):
         for k in tmp.rules[rid]["keys"]:
+            if k.endswith(":expression"):
+                continue  # identity of the expression / hash is C20's clause; C11 asks for equal units
             if k in bad:
                 f = bad[k]
                 res.bad(k, f.where, f.msg, f.expected, f.found, rid=r4)
@@ -340,6 +342,16 @@ def rebuilt_from_table(repo, res):
         res.check(not comps[0].generators[0].ifs, "to_json:complete-table", tj.where(), "to_json filters the rows it writes", rid=r3)
     else:
         raise AnalysisError(f"{tj.where()}: how to_json walks the table is not understood")
+    # the registry's unit system decides what in_base() / convert_to_base() without argument do: a restored registry
+    # must carry the original's.  (The deep copy passes it on; the pickle, JSON and HDF5 formats do not store it, so
+    # their readers rebuild the registry with the default system - see known findings.)
+    for rel, q in sites:
+        if q == "UnitRegistry.__deepcopy__":
+            continue
+        fn = repo.mod(rel).func(q)
+        calls = [c for c in walk_no_nested(fn.node) if isinstance(c, ast.Call) and norm(c.func) in ("UnitRegistry", "cls", "type(self)") and (kwarg_of(c, "lut") is not None)]
+        us_ = kwarg_of(calls[0], "unit_system") if len(calls) == 1 else None
+        res.check(us_ is not None, f"{q}:unit-system", fn.where(), f"{q} rebuilds the registry without its unit system: the restored registry falls back to mks, and in_base() / convert_to_base() / get_base_equivalent() without an argument give another result on the restored object than on the original whenever the original registry used cgs, galactic, code units ...", "unit_system=<the saved registry's system>", [norm(c)[:80] for c in calls], rid=r3)
     dc = repo.mod(REG).func("UnitRegistry.__deepcopy__")
     calls = [c for c in walk_no_nested(dc.node) if isinstance(c, ast.Call) and norm(c.func) == "type(self)"]
     us = kwarg_of(calls[0], "unit_system") if calls else None
